@@ -78,8 +78,6 @@ fcppt::container::tree::object<T> &fcppt::container::tree::object<
 
   this->value_ = _other.value_;
 
-  this->parent_ = nullptr;
-
   this->children_ = this->copy_children(_other.children_);
 
   return *this;
@@ -92,8 +90,6 @@ fcppt::container::tree::object<T> &fcppt::container::tree::object<T>::operator=(
   value_ = std::move(_other.value_);
 
   children_ = this->move_children(std::move(_other.children_));
-
-  std::swap(parent_, _other.parent_);
 
   return *this;
 }
@@ -374,9 +370,17 @@ void fcppt::container::tree::object<T>::swap(object &_other)
 
   swap(this->value_, _other.value_);
 
-  std::swap(this->parent_, _other.parent_);
-
   this->children_.swap(_other.children_);
+
+  for (auto &child : this->children_)
+  {
+    child.parent_ = this;
+  }
+
+  for (auto &child : _other.children_)
+  {
+    child.parent_ = &_other;
+  }
 }
 
 template <typename T>
